@@ -198,7 +198,9 @@ func (m *MdnsManager) Start(cb api.MdnsReportInterface) error {
 		return err
 	}
 
+	m.mux.Lock()
 	m.report = cb
+	m.mux.Unlock()
 
 	// catch signals
 	go func() {
@@ -560,19 +562,29 @@ func (m *MdnsManager) processMdnsEntry(elements map[string]string, name, host st
 		logging.Log().Debug("mdns: new - ski:", ski, "name:", name, "brand:", brand, "model:", model, "typ:", deviceType, "serial:", serial, "categories:", categoriesStr, "identifier:", identifier, "register:", register, "host:", host, "port:", port, "addresses:", addresses)
 	}
 
-	if m.report == nil || !updated {
+	report := m.reportInterface()
+	if report == nil || !updated {
 		return
 	}
 
 	entries := m.copyMdnsEntries()
-	go m.report.ReportMdnsEntries(entries, true)
+	go report.ReportMdnsEntries(entries, true)
 }
 
 func (m *MdnsManager) RequestMdnsEntries() {
-	if m.report == nil {
+	report := m.reportInterface()
+	if report == nil {
 		return
 	}
 
 	entries := m.copyMdnsEntries()
-	go m.report.ReportMdnsEntries(entries, false)
+	go report.ReportMdnsEntries(entries, false)
+}
+
+// the registered callback, it is set while the mDNS provider may already deliver entries
+func (m *MdnsManager) reportInterface() api.MdnsReportInterface {
+	m.mux.Lock()
+	defer m.mux.Unlock()
+
+	return m.report
 }
